@@ -335,6 +335,10 @@ int main(int argc, char** argv) {
             cfgs.push_back({1, 10, tlx::MWMA_LOSER_TREE, st, E_FRONT_FORCE});
             cfgs.push_back({0, 1, tlx::MWMA_LOSER_TREE, st, E_FRONT_FORCE});
             if (!light) cfgs.push_back({0, 10, tlx::MWMA_BUBBLE, st, E_BASE});
+            // the remaining entry points (their own Stable/forwarding arguments): only on the tuples with four or more sequences
+            // (see the filter in the case loop), where the loser-tree merges - the only ones that can be unstable - run
+            if (!light) cfgs.push_back({1, 10, tlx::MWMA_LOSER_TREE, st, E_SENTINELS_FORCE});
+            if (!light) cfgs.push_back({0, 10, tlx::MWMA_LOSER_TREE_COMBINED, st, E_FRONT_MINIMAL});
             continue;
         }
         for (int sp = 0; sp <= 1; ++sp) {
@@ -382,6 +386,7 @@ int main(int argc, char** argv) {
         c.stable = g.stable;
         c.entry = g.entry;
         if (c.entry == E_FRONT_MINIMAL && c.threads == 1) return;  // threads > 1 is part of that dispatch condition
+        if (!thorough && (c.entry == E_SENTINELS_FORCE || c.entry == E_FRONT_MINIMAL) && c.seqs.size() < 4) return;
         vh::at(c.label().c_str(), c.str());
         long steps = vx::run_default([&] { run_merge(c, &fail_inputs); });
         vh::stat_add("cases");
